@@ -185,7 +185,7 @@ func c01Shared(c *eng.Ctx, r *eng.Report, cone *eng.Cone, shared map[string][]en
 		}
 		msg := ""
 		for _, h := range hits {
-			call := h.Instr.(*ssa.Call)
+			call := &struct{ Call ssa.CallCommon }{*eng.HitCommon(h)}
 			switch rv[0] {
 			case "immutable-value":
 				m := ""
@@ -265,7 +265,7 @@ func c01Shared(c *eng.Ctx, r *eng.Report, cone *eng.Cone, shared map[string][]en
 			}
 			getOK, putOK, nGet, nPut := true, true, 0, 0
 			for _, h := range hits {
-				call := h.Instr.(*ssa.Call)
+				call := &struct{ Call ssa.CallCommon }{*eng.HitCommon(h)}
 				f := call.Call.StaticCallee()
 				switch {
 				case f != nil && f.Name() == "Get":
@@ -273,7 +273,7 @@ func c01Shared(c *eng.Ctx, r *eng.Report, cone *eng.Cone, shared map[string][]en
 					getOK = getOK && resets(h.Fn, nil)
 				case f != nil && f.Name() == "Put":
 					nPut++
-					putOK = putOK && resets(h.Fn, call)
+					putOK = putOK && resets(h.Fn, h.Instr)
 				default:
 					msg = "unexpected pool operation " + h.Detail
 				}
@@ -325,7 +325,10 @@ func classHolds(c *eng.Ctx, h eng.NDHit, class string) string {
 			}
 		}
 	case "clock":
-		call := h.Instr.(*ssa.Call)
+		call, isCall := h.Instr.(*ssa.Call)
+		if !isCall {
+			return "the clock is read in a deferred call"
+		}
 		switch class {
 		case "casting-only":
 			ok := false
@@ -350,7 +353,7 @@ func classHolds(c *eng.Ctx, h eng.NDHit, class string) string {
 					if h2.Kind != "cache" || h2.Recv != h.Recv {
 						continue
 					}
-					call := h2.Instr.(*ssa.Call)
+					call := &struct{ Call ssa.CallCommon }{*eng.HitCommon(h2)}
 					m := ""
 					if f := call.Call.StaticCallee(); f != nil {
 						m = f.Name()
@@ -366,7 +369,7 @@ func classHolds(c *eng.Ctx, h eng.NDHit, class string) string {
 							}
 						}
 						if keyArg == nil || !strings.Contains(strings.ToLower(eng.Desc(keyArg)), "codehash") {
-							return eng.FuncName(fn) + " keys the cache by " + eng.Desc(keyArg) + " (" + c.Pos(call.Pos()) + "), which is not the content hash: a hit may return what another state stored under the same key"
+							return eng.FuncName(fn) + " keys the cache by " + eng.Desc(keyArg) + " (" + c.Pos(h2.Pos) + "), which is not the content hash: a hit may return what another state stored under the same key"
 						}
 					}
 				}
